@@ -141,11 +141,11 @@ def main():
             f[0].values[:, 0] += 0.25 * mesh.points[:, 1]
             F = f.extract()[0]
             if kind.endswith("-ni"):
-                solid = fem.SolidBodyNearlyIncompressible(fem.NeoHooke(mu=1.0), f, bulk=20.0)
+                solid = fem.SolidBodyNearlyIncompressible(fem.NeoHooke(mu=1.25), f, bulk=20.0)
                 r = solid.assemble.vector().toarray()
                 P = np.asarray(solid.evaluate.stress(f), float)           # the first Piola-Kirchhoff stress the body reports
             else:
-                um = fem.NeoHooke(mu=1.0, bulk=2.0)
+                um = fem.NeoHooke(mu=1.25, bulk=2.0)
                 solid = fem.SolidBody(um, f)
                 r = solid.assemble.vector().toarray()
                 P = np.asarray(um.gradient([F, None])[0], float)
